@@ -279,6 +279,10 @@ class _FilePersistence(_ConcretePersistence):
         previous_run_id = None
         line_number = 0
         for line in data_file:
+            if not line.endswith("\n"):
+                # an interrupted write left an incomplete last line, which may
+                # look like a valid but different record: ignore it
+                continue
             try:
                 if line.startswith("#"):  # skip comments, and shebang lines, but read run_ids
                     line_number += 1
